@@ -11,7 +11,7 @@ EXTRA_IMPORTS = re_.RETRY_IMPORTS
 RULE = ('per-attempt outcomes {response ok, response with error (listed / unlisted code), transport exception (listed / subclass / '
         'unlisted), undecodable body, invalid response, identity mismatch, KeyboardInterrupt, asyncio.CancelledError} in every sequence '
         'of length attempts+1 for strategies of 0..2 (quick) / 0..3 (thorough) attempts (plus no strategy), x 0..3 tracers (handed over as a list, a tuple, a generator or an iterator) x single / '
-        'batch / notification x caller-supplied vs default trace context x sync / async. distinct = distinct full case; non-trivial = '
+        'batch / notification x caller-supplied vs default trace context x sync / async; a quarter of the cases on a client that has already served a retried request. distinct = distinct full case; non-trivial = '
         'at least one tracer event')
 EXHAUSTIVE = {'quick': False, 'thorough': False}
 TRUSTED_BASE = ['unittest.mock patching of the sleeps; instrumented Tracer subclasses recording (event, tracer index, context identity, payload)']
@@ -43,6 +43,9 @@ def generate(seed, tier):
                               'tracers': rnd.choice([0, 1, 2, 3, 2]), 'tr_as': rnd.choice(['list', 'list', 'tuple', 'gen', 'iter']),
                               'supplied': rnd.random() < 0.5, 'req': req,
                               'async': rnd.random() < 0.5})
+    for i, c in enumerate(cases):
+        if i % 4 == 0:
+            c['warm'] = True       # the same client, strategy and tracer objects have already served a request
     return cases
 
 
